@@ -124,6 +124,9 @@ type World struct {
 	Errors    []string // attachment failures
 	RepoDir   string
 	LitInfo   map[*ast.FuncLit]*FuncInfo
+	// LocalHints: per function, local name -> "ordinal:type" as recorded on the unchanged tree, used to
+	// rebind a contract's reference to a local that was merely renamed (DESIGN.md 3.4)
+	LocalHints map[string]map[string]string
 }
 
 const contractFile = "zz_verif_contracts.go"
